@@ -262,7 +262,7 @@ def quoteLoop (quote : Nat) : Nat → L → Bool → L × Bool   -- returns (sta
     let (l1, r) := l.next
     if r == eof then (l1, true)
     else if r == quote && !esc then (l1, false)
-    else quoteLoop quote n l1 (r == 92)
+    else quoteLoop quote n l1 (r == 92 && !esc && quote != 96)
 
 def L.continueToMatchingQuote (l : L) (typ : TT) (capture : Bool) : L × Nat :=
   let (l, quote) := l.peek
@@ -307,7 +307,7 @@ def kwChildren : GoStr := [99, 104, 105, 108, 100, 114, 101, 110]
 def kwEscaped : GoStr := [101, 115, 99, 97, 112, 101, 100]
 def kwPreserve : GoStr := [112, 114, 101, 115, 101, 114, 118, 101]
 def kwHashBrace : GoStr := [35, 123]
-def kwBslashHash : GoStr := [92, 35]
+def kwBslashHash : GoStr := [92, 35, 123]
 def kwBang3 : GoStr := [33, 33, 33]
 
 def emitIfPending (l : L) (t : TT) : L := if !l.s.isEmpty then l.emit t else l
@@ -576,7 +576,7 @@ def lexGohtTextContent (l : L) : L × St :=
   let l := l.acceptUntil Gen.lexGohtTextContent_acceptUntil0
   let (l, c) := l.peek
   if c == ch '\\' then
-    let (l, s) := l.peekAhead 2
+    let (l, s) := l.peekAhead 3
     if s == kwBslashHash then
       let l := (l.skip).1
       let l := if !hasSuffix l.s [92] then (l.next).1 else l
